@@ -126,7 +126,9 @@ class DataFrameInternal:
             ([i] for i in range(start, end, step)),
             numSlices=numPartitions
         )
-        return DataFrameInternal(sc, rdd, ["id"], True)
+        # an explicit schema: an empty range has no row to infer it from
+        schema = StructType([StructField("id", LongType(), True)])
+        return DataFrameInternal(sc, rdd, ["id"], True, schema=schema)
 
     def count(self):
         return self._rdd.count()
